@@ -645,6 +645,7 @@ func execC02(s *c02Scenario, c *ev.Ctx) {
 					eligible[v] = true
 				}
 			}
+			eligible[d] = true // the pod's own domain takes part by definition
 			upperMin := -1
 			for e := range eligible {
 				if !podAdmitsDomain(p.pod, key, e) && honorAffinity {
